@@ -9,7 +9,8 @@
  *      net:<poll>:<y|n>:<recvs>:<sends>   environment of the following dispatches (recvs in bytes, 'p' = everything)
  *      srv:<kind>:<k>[:<arg>]     the server appends a PDU for request k: ok | status:<code> | unk | stale | badmac | errpdu:<code> | conf | okc | cok | garbage
  *      t:<secs>
- *  => one token per a/run/srv step:  A<status>:<id>   R<rc>:<idx|->:<state>:<err>:p<pending>   S<hex> */
+ *  => one token per a/run/srv step:  A<status>:<id>   R<rc>:<idx|->:<state>:<err>:p<pending>   S<hex>
+ *     and, after an R token that hands back a request failed with a receive timeout, T<idx>:<seconds since it was seen sent> (oracle only) */
 #include <sys/types.h>
 #include <sys/socket.h>
 #include <sys/ioctl.h>
@@ -136,6 +137,9 @@ static void do_line(char *work, const char *orig) {
 	if (n == 5 && (!strcmp(w[0], "async") || !strcmp(w[0], "asyncx"))) {
 		int ext = w[0][5] == 'x';      /* asyncx: the extending service (requests: extend to the head; replies: extension PDUs) */
 		KSI_AsyncService *as = NULL; KSI_AsyncHandle *hs[MAXREQ]; int nh = 0, first = 1, i;
+		/* when each plain request was last SEEN to have gone out (state turned to waiting-for-response); -1: not seen yet */
+		static time_t sentAt[MAXREQ]; static char wasW[MAXREQ];
+		for (i = 0; i < MAXREQ; i++) { sentAt[i] = -1; wasW[i] = 0; }
 		KSI_AsyncHandle *cfs[64]; int ncf = 0;
 		char *save = NULL, *tok; rb_buf stream;
 		rb_init(&stream);
@@ -194,8 +198,16 @@ static void do_line(char *work, const char *orig) {
 					int idx = -1;
 					for (i = 0; i < nh; i++) if (hs[i] == h) idx = i;
 					printf("R%d:%d:%d:%d:p%zu:w%zu", r, idx, h->state, h->err, pending, waiting);
+					/* for the oracle only: how long ago the request that now fails with a receive timeout was (last seen to be) sent */
+					if (idx >= 0 && h->state == KSI_ASYNC_STATE_ERROR && h->err == KSI_NETWORK_RECIEVE_TIMEOUT)
+						printf(" T%d:%ld", idx, sentAt[idx] < 0 ? 0L : (long)(g_now - sentAt[idx]));
 					for (i = 0; i < ncf; i++) if (cfs[i] == h) { cfs[i] = NULL; break; }   /* a configuration request of our own: its reference came back */
 					KSI_AsyncHandle_free(h);
+				}
+				for (i = 0; i < nh; i++) {
+					char w = hs[i]->state == KSI_ASYNC_STATE_WAITING_FOR_RESPONSE;
+					if (w && !wasW[i]) sentAt[i] = g_now;
+					wasW[i] = w;
 				}
 			} else if (!strncmp(tok, "g:", 2)) {
 				int r = KSI_AsyncService_setOption(as, KSI_ASYNC_OPT_REQUEST_CACHE_SIZE, (void *)(size_t)atoi(tok + 2));
